@@ -14,7 +14,7 @@ from __future__ import annotations
 import dataclasses
 from typing import Any, Callable, Dict, List, Optional, Tuple
 
-from harness.common import Counter, term_fn
+from harness.common import watchdog, Counter, term_fn
 from sx.engine import Ctx, SXControl, SymVal, veq
 
 
@@ -299,6 +299,7 @@ def build_inner(c: Ctx, M: Mode, H: Holes, name: str, depth: int) -> None:
     M.own_flag[name] = ownflag is not None or (nested and M.own_flag[name + "_in"])
 
 
+@watchdog(lambda cfg: cfg.focus)
 def run_dataflow(cfg: DCfg, c: Ctx) -> Any:
     from tawazi import Resource, dag, xn
     from tawazi.errors import TawaziBaseException
@@ -383,7 +384,7 @@ def run_dataflow(cfg: DCfg, c: Ctx) -> Any:
     except BaseException as e:
         want = ("raise", type(e).__name__)
     counts_plain = dict(cnt.n)
-    data = {"spec": spec, "got": repr(got)[:600], "want": repr(want)[:600], "counts_dag": counts_dag, "counts_plain": counts_plain}
+    data = {"spec": spec, "got": got, "want": want, "counts_dag": counts_dag, "counts_plain": counts_plain}
     prop = cfg.focus
     if want[0] == "raise":
         # the plain program itself fails (e.g. None + x, or unpacking / indexing the None of a deactivated call, which
